@@ -11,7 +11,9 @@ committed ("verif hook: dkg post-ceremony glue ...").
 n_quick / n_thorough count CEREMONIES (each a real dkg.Run of all nodes, 1-3 s), not ops; one ceremony is
 followed by ~60-120 ops on its artifacts; the first ceremony of a quick seed (every ceremony in the thorough tier, chains of up
 to three) is followed by one cluster-changing protocol (reshare / addop / rmop / replop, ~1.5 s with the production keystore
-cost) and ~50-150 ops on the new cluster. Quick tier: 4 ceremonies + 1 protocol per seed, about 6-12 s per seed.
+cost) and ~50-150 ops on the new cluster. Even quick seeds add one add-validators ceremony (`append`), odd ones one
+ceremony in keymanager mode with a refusing keymanager. Quick tier: 4 ceremonies + 1 protocol + 1 append or keymanager
+ceremony per seed, about 8-12 s per seed.
 """
 
 STREAM = {"name": "dkgrun", "drive": "drive-dkgrun", "model": "drv-dkgrun",
@@ -38,11 +40,27 @@ THEOREMS = [
     "CharonV.DkgGlue.protocol_lock_pubshares_in_new_share_order",
     "CharonV.DkgGlue.remove_operators_bookkeeping",
     "CharonV.DkgGlue.replace_operator_keeps_positions",
+    "CharonV.DkgGlue.append_keystores_match_lock",
+    "CharonV.DkgGlue.keymanager_failure_fails_run",
     "CharonV.DkgGlue.aggregate_is_group_signature",
     "CharonV.DkgGlue.threshold_bls_satisfies_laws",
 ]
 
 TRUSTED_BASE = [
+    "add-validators ceremony (dkg.Run with a non-empty AppendConfig: getExistingShares, the append branches of Run and "
+    "signAndAggLockHash): op `append extra` runs it on the latest generation (also after protocols and chained) the way "
+    "dkg/dkg_test.go TestAppendDKG does - every node gets the current lock, ITS current key shares and its deposit-data files - "
+    "and then evaluates every artifact monitor for EVERY validator old and new (node j's keystore-i secret has public key "
+    "lock.Validators[i].PubShares[j]; the group secret shared at keystore position i has the key of lock validator i; old group "
+    "keys, deposit data, registrations and shares unchanged; new validators' deposit data and registrations valid as configured); "
+    "references of the new validators are found by the LOCK's key, not by keystore position; all validators' shares go to the "
+    "Lean side as scalars (aval / nrec / nsig) and `part` compares lock and keystore order with the model (existing first)",
+    "keymanager mode (Config.KeymanagerAddr/AuthToken, writeKeysToKeymanager): `run ... km=<a|u|e|f per node>` starts one HTTP "
+    "keymanager per node in the driver (accepting / 401 / 500 / failing once); the shares of an accepting node are what its "
+    "keymanager received, decrypted as the repo's tests do; monitors success_without_stored_shares (Run returned nil on a node "
+    "whose keymanager accepted no import of all its shares and that has no keystores on disk) and "
+    "keymanager_received_wrong_shares (not that node's shares in lock order); a refusing keymanager makes the ceremony fail, "
+    "which is the modelled answer (`run => err`)",
     "cluster-changing ceremonies (dkg/protocol.go RunProtocol, protocol_reshare / _addoperators / _removeoperators / "
     "_replaceoperator.go, protocolsteps.go, and through them pedersen.RunReshareDKG with added / removed peers, restoreCommits, "
     "broadcastNoneKey): after a `run` ceremony the ops reshare / addop k / rmop ids part t' / replop pos run the REAL protocol for "
@@ -89,6 +107,10 @@ TRUSTED_BASE = [
 ]
 
 ASSUMPTIONS = [
+    "append_keystores_match_lock assumes the old keystores matched the old lock and the new validators' shares match the new "
+    "validators (keystores_match_lock of their ceremony) and concludes it for every position of the appended lock; "
+    "keymanager_failure_fails_run models the code as it is: ONE import request per node, its error is Run's error (a retry "
+    "would be a change of behaviour the stream reports as a difference for the `f` mode)",
     "cluster-changing protocols: the algebra of the reshare (new shares lie on a polynomial of degree < t' with the same "
     "constant term) is Props/C11.lean reshare_is_shamir / reshare_keeps_key and is re-checked on every run on the real scalars; "
     "the theorems here are about the assembly of the new lock (protocol_lock_keeps_group_keys, "
